@@ -134,7 +134,7 @@ func r15_2(c *Ctx, r *Report) {
 		}
 		return false
 	})
-	r.floor("R15.2", 2)
+	r.floor("R15.2", 1)
 }
 
 // pushCount counts list pushes in fn: pushes outside loops count once, pushes
